@@ -693,6 +693,41 @@ def c16(ctx):
                 triage16(ctx, 'export', 'cstring-differs', lab0, 'FormatPacketDslExport returns %r..., library %r...' % (hr[:60], w2[:60]), dict(rep, export=hr[:800].decode('utf-8', 'replace')))
             if e2 is not None and not hr.startswith(b'Error:'):
                 triage16(ctx, 'export', 'error-not-prefixed', lab0, 'syntax error but the returned string does not start with "Error:": %r' % hr[:80], rep)
+    # history lane (round 7, C16l): the result of the export must not depend on the calls made before it in the same process.
+    # One host process per 200 calls; the call sequence visits each sampled text twice in a row and once more after the next
+    # text (t0 t0 | t1 t1 t0 | t2 t2 t1 | ...), valid and invalid texts interleaved; every call is compared with the library result.
+    hsel = [i for i, (l, b) in enumerate(texts) if b and b'\x00' not in b and len(b) < 20000 and not lib[i][2]
+            and not isinstance(host_res.get(str(i)), tuple)]
+    hv = [i for i in hsel if lib[i][1] is None]
+    hi = [i for i in hsel if lib[i][1] is not None]
+    rng.shuffle(hv)
+    rng.shuffle(hi)
+    nh = 30 if quick else 150
+    seq_txt = [x for pair in zip(hv[:nh], hi[:nh]) for x in pair]
+    calls = []
+    for j, i in enumerate(seq_txt):
+        calls += [i, i]
+        if j:
+            calls.append(seq_txt[j - 1])
+    hist_inputs = [('h%d_%d' % (n, i), texts[i][1]) for n, i in enumerate(calls)]
+    hist_res = run_chost(ctx, hist_inputs, 'c16h') if hist_inputs else {}
+    for n, i in enumerate(calls):
+        hr = hist_res.get('h%d_%d' % (n, i))
+        if hr is None or isinstance(hr, tuple):
+            ctx.counters['export-history-call-not-judged'] += 1
+            continue
+        want, err, _ = lib[i]
+        ctx.evaluated(1, key=(n, i, 'export-history'))
+        ctx.counters['export-history-calls'] += 1
+        prev = [texts[k][1][:200].decode('utf-8', 'replace') for k in calls[max(0, n - 3):n]]
+        rep = {'label': texts[i][0], 'input_b64': tools.b64(texts[i][1]), 'input_preview': texts[i][1][:400].decode('utf-8', 'replace'), 'call_number_in_process': n % 200,
+               'previous_calls_preview': prev, 'library_result': want[:600].decode('utf-8', 'replace'), 'library_error': err, 'export': hr[:800].decode('utf-8', 'replace')}
+        if err is None and hr != want:
+            triage16(ctx, 'export', 'cstring-differs-after-history', texts[i][0].split('/')[0], 'call %d of one process: FormatPacketDslExport returns %r..., library %r...' % (n % 200, hr[:60], want[:60]), rep)
+        if err is not None and not hr.startswith(b'Error:'):
+            triage16(ctx, 'export', 'error-not-prefixed-after-history', texts[i][0].split('/')[0],
+                     'call %d of one process: syntax error but the returned string does not start with "Error:": %r' % (n % 200, hr[:80]), rep)
+    host_res.update({k: x for k, x in hist_res.items() if k.startswith('__sanitizer__')})
     san = [k for k in host_res if k.startswith('__sanitizer__')]
     for k in san:
         triage16(ctx, 'export', 'sanitizer-report', 'batch', host_res[k][1][-500:], {'output': host_res[k][1]})
